@@ -36,7 +36,9 @@ class LinearOperator(EditableModule):
 
     def __new__(cls, *args, **kwargs):
         # check the implemented functions in the class
-        if not cls._implementation_checked:
+        # look only at the marker of this very class: a marker found through a
+        # parent class describes the parent's methods, not this class'
+        if not cls.__dict__.get("_implementation_checked", False):
             cls._is_mv_implemented = cls.__check_if_implemented("_mv")
             cls._is_mm_implemented = cls.__check_if_implemented("_mm")
             cls._is_rmv_implemented = cls.__check_if_implemented("_rmv")
@@ -46,9 +48,9 @@ class LinearOperator(EditableModule):
 
             cls._implementation_checked = True
 
-            if not cls._is_mv_implemented:
-                raise RuntimeError("LinearOperator must have at least _mv(self) "
-                                   "method implemented")
+        if not cls._is_mv_implemented:
+            raise RuntimeError("LinearOperator must have at least _mv(self) "
+                               "method implemented")
         return super(LinearOperator, cls).__new__(cls)
 
     @classmethod
